@@ -705,6 +705,11 @@ func (h *c02Hist) overlappingMerges() bool {
 }
 
 func (h *c02Hist) fail(sig, what string, line int) {
+	for _, l := range h.lines {
+		if w := strings.Fields(l); len(w) == 4 && w[0] == "hide" && c02Atoi(w[2]) > 1048576 && !strings.HasPrefix(sig, "panic:") {
+			sig = "save-after-row-beyond-limit"
+		}
+	}
 	if !strings.HasPrefix(sig, "panic:") && !strings.HasPrefix(sig, "save-twice") && h.overlappingMerges() {
 		for _, a := range []string{":merges:", ":cell:", ":rows:", ":type:", ":formula:", ":style:", ":result:"} {
 			if strings.Contains(sig+":", a) {
@@ -1067,6 +1072,14 @@ func (h *c02Hist) finish() {
 		h.r.Case(strings.Join(h.lines, ";"), h.saves > 0 && h.mutAfter)
 		h.a.f, h.b.f, h.lines = nil, nil, nil
 		return
+	}
+	for _, l := range h.lines {
+		if w := strings.Fields(l); len(w) == 4 && w[0] == "hide" && c02Atoi(w[2]) > 1048576 {
+			// a million row slots: the per-call twin comparison has already spoken, no full observation
+			h.r.Case(strings.Join(h.lines, ";"), h.saves > 0 && h.mutAfter)
+			h.a.f, h.b.f, h.lines = nil, nil, nil
+			return
+		}
 	}
 	h.twinObs("at the end")
 	if h.poison {
@@ -1541,6 +1554,9 @@ var c02WideWitnesses = [][]string{
 	// open finding: overlapping merged ranges are only combined by the save (mergeOverlapCells, in place);
 	// until then a write into the overlap is redirected to the first range listed
 	{"new", "merge 0 4 3 4 4", "merge 0 3 2 4 3", "save 0 0", "val 0 4 4 - " + hx("1")},
+	// open finding: SetRowVisible accepts a row beyond TotalRows; the part written for such a worksheet
+	// cannot be loaded again (checkSheet: ErrMaxRows), so after a save every call on the sheet fails
+	{"new", "hide 0 1048577 1", "save 0 0", "vis 0 1"},
 }
 
 // regression histories for defects the twin oracle once missed (run on every run, direct oracles only)
